@@ -193,6 +193,7 @@ type Scenario struct {
 	Slow          bool       // about a quarter of the gaps are 1-4 minutes
 	Steered       int        // conversations moved away from a shape excluded by the Config (see Config.Avoid...)
 	SteeredCuts   int        // cut positions moved by Config.AvoidCutAfterSecondFin
+	Unordered     int        // capture files whose first or last two packets are not in timestamp order
 	EqualStamps   int        // pairs of consecutive packets (different conversations) with the same timestamp
 }
 
